@@ -167,6 +167,34 @@ theorem colMajor_cmp_coordinatewise (st : St) (op : String) (tc : List String) (
   · have hoff : r.win.off = 0 := by rw [hrw]
     rw [hoff, Nat.zero_add]; exact hxy
 
+/-- **A unary operation with an increment tensor of the other data order adds by coordinate** (the `WithIncr` part of
+    finding F35, repaired: `prepDataUnary` takes the iterator path when the data orders of the operand and of the
+    destination differ, as `prepDataVV/VS/SV` do). For a contiguous operand `a` and a contiguous increment tensor `r` of
+    the other order, `StdEng.<Op>(a, WithIncr(r))` returns `r`, and at the `k`-th position of the two iterators — the
+    `k`-th coordinate in row-major order of coordinates for both, by `colMajor_iter_logical` / `rowMajor_iter_logical` —
+    `r`'s cell has received `+ g` of `a`'s cell; the operand and every other existing cell are unchanged. Before the
+    repair the raw kernels added cell `i` of the clone to cell `i` of `r`. -/
+theorem unary_incr_mixed_order_coordinatewise (st : St) (g : UnF) (tc kt : List String) (strict : Bool) (a r : Dense)
+    (htc : a.dt ∈ tc) (hk : a.dt ∈ kt) (hord : r.ap.o.col ≠ a.ap.o.col)
+    (hma : a.mask = none) (hmr : r.mask = none) (hr : IncrFits r a.shape a.dt)
+    (hla : a.win.len ≠ 1) (hlr : r.win.len ≠ 1)
+    (hor : ∀ i ∈ r.offsets, 0 ≤ i ∧ i < (r.win.len : Int)) (hoa : ∀ j ∈ a.offsets, 0 ≤ j ∧ j < (a.win.len : Int))
+    (hndr : r.offsets.Nodup) (hnda : a.offsets.Nodup)
+    (hA : InBuf st a.win.buf a.win.off a.win.len) (hR : InBuf st r.win.buf r.win.off r.win.len) :
+    ∃ out, engUnary st g tc kt strict a { incr := some r } = .ok out ∧ out.ret = .reuse ∧ out.reuse = some r ∧
+      out.st.mheap = st.mheap ∧
+      (∀ (k : Nat) m j, r.offsets[k]? = some m → a.offsets[k]? = some j →
+        ∃ acc x, cell st r.win.buf (r.win.off + m.toNat) = some acc ∧ cell st a.win.buf (a.win.off + j.toNat) = some x ∧
+          cell out.st r.win.buf (r.win.off + m.toNat) = some (.app2 "add" acc (g x))) ∧
+      (∀ b' k', b' < st.heap.size → b' ≠ r.win.buf → cell out.st b' k' = cell st b' k') := by
+  obtain ⟨st', h, hm, hv, hfr⟩ := engUnary_incr_mixed_order' st g tc kt strict a r (by simpa using htc) (by simpa using hk)
+    (by unfold sameOrd; simpa using hord) hma hmr hr hla hlr hor hoa hndr hnda hA hR
+  refine ⟨_, h, rfl, rfl, hm, ?_, hfr⟩
+  intro k m j hk' hj
+  have hmr' := hor m (List.mem_of_getElem? hk')
+  have hjr := hoa j (List.mem_of_getElem? hj)
+  exact ⟨_, _, cell_some_cellD (hR.has.at hmr'.1 hmr'.2), cell_some_cellD (hA.has.at hjr.1 hjr.2), hv k m j hk' hj⟩
+
 /-- `tensor.Copy` between tensors of different data order copies element by element along both
     iterators (i.e. by coordinate), never the raw storage (the `fix:` of finding F26). -/
 theorem copy_mixed_order_by_coordinate (st : St) (dst src : Dense) (hdt : dst.dt = src.dt)
@@ -200,5 +228,22 @@ example := colMajor_cmp_coordinatewise st "lt" ordTypes ta tb rfl rfl (by decide
 example : ∃ out r, engCmpVV st "lt" ordTypes ta tb {} = .ok out ∧ out.ret = .fresh r ∧ r.ap.strides = [1, 2] ∧
     cell out.st 2 3 = some (.app2 "lt" (.src 0 3) (.src 1 3)) := ⟨_, _, rfl, rfl, by decide, rfl⟩
 end ExCmp
+
+namespace ExIncr
+def st : St := { heap := #[#[.src 0 0, .src 0 1, .src 0 2, .src 0 3, .src 0 4, .src 0 5],
+                           #[.src 1 0, .src 1 1, .src 1 2, .src 1 3, .src 1 4, .src 1 5]] }
+/-- a column-major (3,2) operand and a row-major (3,2) increment tensor (`new f32 3,2 Fraw ; new f32 3,2 C ;
+    un neg $0 incr=$1`) -/
+def ta : Dense := { ap := { shape := [3, 2], strides := [1, 3], o := { col := true } }, win := ⟨0, 0, 6, 6⟩, dt := "f32" }
+def tr : Dense := { ap := { shape := [3, 2], strides := [2, 1] }, win := ⟨1, 0, 6, 6⟩, dt := "f32" }
+example : ta.offsets = [0, 3, 1, 4, 2, 5] ∧ tr.offsets = [0, 1, 2, 3, 4, 5] := by decide
+example := unary_incr_mixed_order_coordinatewise st (fun x => .app1 "neg" x) numberTypes numberTypes true ta tr
+  (by decide) (by decide) (by decide) rfl rfl ⟨rfl, by decide, by decide⟩ (by decide) (by decide) (by decide) (by decide)
+  (by decide) (by decide) ⟨_, rfl, by decide⟩ ⟨_, rfl, by decide⟩
+/-- concretely: coordinate (0,1) is cell 1 of `r` and cell 3 of `a`; `r`'s cell 1 becomes `r[1] + neg a[3]` (before the
+    repair: `r[1] + neg a[1]`, the element at coordinate (1,0)) -/
+example : ∃ out, engUnary st (fun x => .app1 "neg" x) numberTypes numberTypes true ta { incr := some tr } = .ok out ∧
+    cell out.st 1 1 = some (.app2 "add" (.src 1 1) (.app1 "neg" (.src 0 3))) := ⟨_, rfl, rfl⟩
+end ExIncr
 
 end TM.C16
